@@ -537,3 +537,17 @@ theorem keyFromStateInit_own (H : List UInt8 → List UInt8) (known : List (List
   rw [hparse]
 
 end Tongo.TonConnect
+
+namespace Tongo.TonConnect
+
+/-- within the ranges where Go's time arithmetic does not wrap (timestamp below 2⁶³ − 62135596800, lifetime below
+2⁶³ ns ≈ 292 years) the expiry test is the plain strict comparison -/
+theorem olderThan_inrange (nowNs t life : Int) (ht : -9223372036854775808 ≤ t ∧ t < 9223372036854775808 - 62135596800)
+    (hl : -9223372036854775808 ≤ life * 1000000000 ∧ life * 1000000000 < 9223372036854775808) :
+    olderThan nowNs t life = decide (nowNs - t * 1000000000 > life * 1000000000) := by
+  have h1 : unixEff t = t := by unfold unixEff wrap64; omega
+  have h2 : wrap64 (life * 1000000000) = life * 1000000000 := by unfold wrap64; omega
+  unfold olderThan
+  rw [h1, h2]
+
+end Tongo.TonConnect
